@@ -174,11 +174,25 @@ def _kc_restart_unstaged(v):
             and v.get("staged_entry") is False and v.get("event_task") not in COMMANDS)
 
 
-KNOWN_CANDIDATES = {
+# Only what the committed known_findings.json lists is ever reported as known.  The other two predicates describe
+# defects that were repaired in /repo (D28 4040f81, D27 a7794e3): they suppress nothing -- if either returns, it is a
+# violation again.
+_PREDICATES = {
     "C15-rerun-of-inflight-task": _kc_rerun_inflight,
     "C15-item-report-after-retry-reset": _kc_items_after_reset,
     "C15-starting-status-after-completed": _kc_restart_unstaged,
 }
+
+
+def _listed():
+    try:
+        with open(os.path.join(engine.VERIF, "known_findings.json")) as f:
+            return set(k["id"] for k in json.load(f).get("findings", []) if "C15" in k.get("properties", []))
+    except Exception:
+        return set()
+
+
+KNOWN_CANDIDATES = {k: v for k, v in _PREDICATES.items() if k in _listed()}
 
 # documented refusals of a conformant call, per operation kind
 REFUSALS = {
